@@ -715,7 +715,13 @@ impl<T> ExternalError<T> for Result<T, ring_error::Unspecified> {
 #[cfg(feature = "pem")]
 impl<T> ExternalError<T> for Result<T, pem::PemError> {
 	fn _err(self) -> Result<T, Error> {
-		self.map_err(|e| Error::PemError(e.to_string()))
+		self.map_err(|e| {
+			Error::PemError(match e {
+				// The offending line is a piece of the input, which may be private key material
+				pem::PemError::InvalidHeader(_) => "invalid header".to_string(),
+				e => e.to_string(),
+			})
+		})
 	}
 }
 
